@@ -1101,7 +1101,7 @@ macro_rules! c09_body {
     }};
 }
 
-// @verif props=C09,C15 tier=quick timeout=2400 mem=16 unwind=7 bound="haystack <= 1 symbolic scalars, arbitrary engine table, symbolic start (incl. beyond the end), up to 4 next() calls; StartPredicate::Arbitrary" funcs="exec::Matches::new,Matches::next,BacktrackExecutor::initial_position,next_match,next_match_with_prefix_search,successful_match,Utf8Input::find_bytes,next_right_pos"
+// @verif props=C09,C15 tier=thorough timeout=5400 mem=16 unwind=7 bound="haystack <= 1 symbolic scalars, arbitrary engine table, symbolic start (incl. beyond the end), up to 4 next() calls; StartPredicate::Arbitrary" funcs="exec::Matches::new,Matches::next,BacktrackExecutor::initial_position,next_match,next_match_with_prefix_search,successful_match,Utf8Input::find_bytes,next_right_pos"
 // @verif stubs="MatchAttempter::try_at_pos -> arbitrary deterministic table END[offset]" assumes="start is beyond the end or on a char boundary (find_from's documented precondition)"
 #[kani::proof]
 #[kani::unwind(7)]
